@@ -163,8 +163,26 @@ Record case := {
   c_tq : list tquery;
   c_table : list dict;                             (* rows of the table read back from disk *)
   c_eq : list equery;
-  c_sq : list squery
+  c_sq : list squery;
+  c_disk : option (list key * list nat)            (* columns of the file read back, tokens written as empty *)
 }.
+
+(* model of to_csv / read_csv with the text level replaced by the identity: which cells hold a value, and the
+   columns in order, must be what was read back from disk (values are compared by the Python checker, with
+   float-text tolerance) *)
+Definition na_value (nas : list nat) (v : value) : bool :=
+  match v with VNum NaN => true | VTok t => mem_nat t nas | _ => false end.
+Definition same_keys (a b : dict) : bool :=
+  Nat.eqb (length a) (length b) &&
+  forallb (fun kv => match dget (fst kv) b with Some _ => true | None => false end) a.
+Definition chk_csv (c : case) : bool :=
+  match c_disk c with
+  | None => true
+  | Some (cols, nas) =>
+      let file := csv_write (fun v => v) (na_value nas) (c_rows c) in
+      list_eqb key_eqb (fst file) cols &&
+      list_eqb same_keys (csv_read (fun v => Some v) file) (c_table c)
+  end.
 
 Definition chk_rows (c : case) : bool :=
   match cb_run (c_wallclock c) (c_events c) with
@@ -183,10 +201,11 @@ Definition chk_summary (c : case) : bool := forallb (chk_squery (ts_run (c_histo
 Definition chk_exp (c : case) : bool := forallb (chk_equery (c_table c)) (c_eq c).
 
 (* 0 = all fine; otherwise bit mask of failing parts: 1 rows, 2 statistics, 4 best (tuner), 8 best (experiment),
-   16 final summary *)
+   16 final summary, 32 csv columns / cells with a value *)
 Definition chk_mask (c : case) : Z :=
   ((if chk_rows c then 0 else 1) + (if chk_stats c then 0 else 2) +
-   (if chk_best c then 0 else 4) + (if chk_exp c then 0 else 8) + (if chk_summary c then 0 else 16))%Z.
+   (if chk_best c then 0 else 4) + (if chk_exp c then 0 else 8) + (if chk_summary c then 0 else 16) +
+   (if chk_csv c then 0 else 32))%Z.
 Definition chk_case (c : case) : bool := Z.eqb (chk_mask c) 0.
 """
 
@@ -647,7 +666,7 @@ def exp_queries(er, names):
 
 
 def build_case(tb, wallclock, events, rows, history, overall, per_trial, backend_cfgs, names, mode, bq, tq, table, eqs,
-               summaries=()):
+               summaries=(), disk_cols=None):
     names_t = lst([key_term(tb, n) for n in names])
     ms = modes_term(mode)
     ev_terms = []
@@ -677,12 +696,14 @@ def build_case(tb, wallclock, events, rows, history, overall, per_trial, backend
                 for b in summaries])
     return ("{| c_wallclock := %s;\n c_events := %s;\n c_rows := %s;\n c_history := %s;\n c_tol := %s;\n"
             " c_overall := %s;\n c_trials := %s;\n c_backend := %s;\n c_bq := %s;\n c_tq := %s;\n c_table := %s;\n"
-            " c_eq := %s;\n c_sq := %s |}" % (
+            " c_eq := %s;\n c_sq := %s;\n c_disk := %s |}" % (
                 blit(wallclock), lst(ev_terms), lst([dict_term(tb, r) for r in rows]), hist, q(1e-9 * mag),
                 istats_term(tb, overall),
                 lst(["(%s, %s)" % (zlit(t), istats_term(tb, s)) for t, s in per_trial.items()]),
                 lst(["(%s, %s)" % (zlit(t), cfg_term(tb, c)) for t, c in backend_cfgs.items()]),
-                bq_t, tq_t, lst([dict_term(tb, r) for r in table]), eq_t, sq_t))
+                bq_t, tq_t, lst([dict_term(tb, r) for r in table]), eq_t, sq_t,
+                optlit(disk_cols, lambda cols: "(%s, %s)" % (lst([key_term(tb, c) for c in cols]),
+                                                            lst([natlit(tb.tok(None))])))))
 
 
 SKIP_DISK = object()
@@ -1272,7 +1293,8 @@ def run_cases(ctx, replay):
         tb = Tables()
         terms.append(build_case(tb, True, obs["events"], obs["rows"], obs["history"], obs["overall"], obs["per_trial"],
                                 obs["backend_cfgs"], spec["names"], spec["mode"], obs["bq"], obs["tq"], obs["table"],
-                                obs["eqs"], summaries=obs["summaries"]))
+                                obs["eqs"], summaries=obs["summaries"],
+                                disk_cols=None if obs["df"] is None else [str(c) for c in obs["df"].columns]))
         meta.append(case)
         if len(obs["rows"]) >= 3 and not getattr(ctx, "_c17_run_sampled", False):
             ctx._c17_run_sampled = True
@@ -1355,7 +1377,8 @@ def seq_cases(ctx, replay):
         tb = Tables()
         terms.append(build_case(tb, spec["wallclock"], obs["events"], obs["rows"], obs["history"], obs["overall"],
                                 obs["per_trial"], obs["backend_cfgs"], spec["names"], spec["mode"], obs["bq"],
-                                obs["tq"], obs["table"], obs["eqs"], summaries=obs["summaries"]))
+                                obs["tq"], obs["table"], obs["eqs"], summaries=obs["summaries"],
+                                disk_cols=None if obs["df"] is None else [str(c) for c in obs["df"].columns]))
         meta.append(case)
         if i == 0:
             ctx.sample(dict(kind="seq", names=spec["names"], mode=spec["mode"], n_ops=len(spec["ops"]),
@@ -1365,7 +1388,8 @@ def seq_cases(ctx, replay):
     report_model_mismatches(ctx, "seq", terms, meta)
 
 
-PARTS = {16: "final summary of Tuner.run (tuner_final_summary)", 1: "rows (cb_run / make_row)", 2: "statistics (ts_run / stats_add)",
+PARTS = {32: "table read back from disk (csv_write / csv_read / columns)",
+         16: "final summary of Tuner.run (tuner_final_summary)", 1: "rows (cb_run / make_row)", 2: "statistics (ts_run / stats_add)",
          4: "best trial (print_best / tuner_best_config)", 8: "best row (exp_best_config)"}
 
 
@@ -1383,7 +1407,7 @@ def report_model_mismatches(ctx, tag, terms, meta):
         try:
             bits = int(mk.split()[0].strip("()%Z"))
         except ValueError:
-            bits = 31
+            bits = 63
         parts = [v for b, v in PARTS.items() if bits & b]
         ctx.violation("correspondence", "model and implementation differ on: " + "; ".join(parts), case=meta[i],
                       failing_input=False, broken="correspondence chk_case (model/Results.v): " + "; ".join(parts))
